@@ -812,7 +812,18 @@ func (l Loop) Body() map[*ssa.BasicBlock]bool {
 // its latches, i.e. in every completed iteration.
 func (l Loop) IterationFacts(base Cuts) []Fact {
 	var acc []Fact
-	for i, lt := range l.Latches {
+	first := true
+	for _, lt := range l.Latches {
+		// a latch whose back edge is excluded by the caller is not a way to complete an iteration
+		excluded := true
+		for k, s := range lt.Succs {
+			if s == l.Header && !base[Edge{lt.Index, k}] {
+				excluded = false
+			}
+		}
+		if excluded {
+			continue
+		}
 		// cut the back edges so that "header -> latch" is a single iteration
 		cuts := base.with()
 		for _, x := range l.Latches {
@@ -831,8 +842,9 @@ func (l Loop) IterationFacts(base Cuts) []Fact {
 				}
 			}
 		}
-		if i == 0 {
+		if first {
 			acc = fs
+			first = false
 		} else {
 			acc = intersect(acc, fs)
 		}
@@ -1266,4 +1278,72 @@ func CountedLoopIndex(v ssa.Value) (bound ssa.Value, ok bool) {
 		return nil, false
 	}
 	return bo.Y, true
+}
+
+// AccumulatorFacts: ph is a boolean flag carried around a loop ("allOK := true; for … { if !p(x)
+// { allOK = false } }"): it enters the loop as the constant pol and inside the loop is only ever
+// kept or set to !pol. Then "ph == pol after the loop" implies that no iteration took an edge that
+// sets it to !pol, and the result is the set of facts that hold in every iteration that avoids
+// those edges. ok is false when ph does not have that shape.
+func AccumulatorFacts(ph *ssa.Phi, pol bool) ([]Fact, bool) {
+	var loop *Loop
+	for _, l := range LoopsOf(ph.Parent()) {
+		if l.Header == ph.Block() {
+			l := l
+			loop = &l
+		}
+	}
+	if loop == nil {
+		return nil, false
+	}
+	body := loop.Body()
+	cuts := Cuts{}
+	okShape := true
+	seen := map[*ssa.Phi]bool{}
+	var visit func(v ssa.Value, from *ssa.BasicBlock, to *ssa.BasicBlock)
+	visit = func(v ssa.Value, from, to *ssa.BasicBlock) {
+		if v == ssa.Value(ph) {
+			return
+		}
+		if c, isC := isBoolConst(v); isC {
+			if c == pol {
+				okShape = false // re-armed inside the loop: not monotone
+				return
+			}
+			for k, sc := range from.Succs {
+				if sc == to {
+					cuts[Edge{from.Index, k}] = true
+				}
+			}
+			return
+		}
+		m, isPhi := v.(*ssa.Phi)
+		if !isPhi || !body[m.Block()] {
+			okShape = false
+			return
+		}
+		if seen[m] {
+			return
+		}
+		seen[m] = true
+		for j, e := range m.Edges {
+			visit(e, m.Block().Preds[j], m.Block())
+		}
+	}
+	entry := false
+	for i, e := range ph.Edges {
+		pred := ph.Block().Preds[i]
+		if !body[pred] {
+			if c, isC := isBoolConst(e); !isC || c != pol {
+				return nil, false
+			}
+			entry = true
+			continue
+		}
+		visit(e, pred, ph.Block())
+	}
+	if !okShape || !entry || len(cuts) == 0 {
+		return nil, false
+	}
+	return loop.IterationFacts(cuts), true
 }
